@@ -274,6 +274,9 @@ func init() {
 		"(github.com/google/uuid.UUID).String": func(fr *Frame, ins ssa.Instruction, a []*Val, rs *Sort) *Val {
 			return &Val{T: "(uuidString " + a[0].T + ")", S: SString}
 		},
+		"os.Getenv": func(fr *Frame, ins ssa.Instruction, a []*Val, rs *Sort) *Val {
+			return &Val{T: "(envValue " + a[0].T + ")", S: SString}
+		},
 		"net.ParseIP": func(fr *Frame, ins ssa.Instruction, a []*Val, rs *Sort) *Val {
 			// result modelled by length: 0 (nil) or 16
 			return &Val{T: "(parseIP " + a[0].T + ")", S: SString}
@@ -439,6 +442,24 @@ func (fr *Frame) callLib(ins ssa.Instruction, callee *ssa.Function, args []*Val,
 	// a contract for a library function may be given in the contract files ("func lib:strings.Foo")
 	if c, ok := ex.cs.Funcs["lib:"+name]; ok {
 		return fr.applyContract(ins, c, "lib:"+name, callee, callee.Signature, nil, args, resSort)
+	}
+	if strings.HasPrefix(name, "slices.Contains[") && len(args) == 2 && args[0].S.K == KSeq {
+		// generic slices.Contains: membership (a slice literal with known elements is a plain disjunction)
+		if args[0].Elems != nil {
+			known := true
+			parts := []string{}
+			for _, e := range args[0].Elems {
+				if e == nil {
+					known = false
+					break
+				}
+				parts = append(parts, eq(args[1].T, e.T))
+			}
+			if known {
+				return &Val{T: or(parts...), S: SBool}
+			}
+		}
+		return &Val{T: sqHas(args[0].T, args[1].T, args[0].S.Elem), S: SBool}
 	}
 	if strings.HasPrefix(name, "zap.") || strings.HasPrefix(name, "(*zap.Logger)") || strings.HasPrefix(name, "(*go.uber.org/zap") {
 		return fr.havocVal("zap", resSort)
